@@ -7,7 +7,11 @@ from vlib import core, symrun, flow
 
 PID = "C04"
 BITS = {"scalar": 0, "sse2": 128, "sse42": 128, "avx": 256, "avx2": 256, "avx512": 512}
-TSIZE = {"float": 4, "double": 8, "int32_t": 4, "int64_t": 8}
+TSIZE = {"float": 4, "double": 8, "int32_t": 4, "int64_t": 8, "std::complex<double>": 8}   # lanes of complex<double> = lanes of double
+RTYPES = ["float", "double", "int32_t", "int64_t", "std::complex<double>"]
+
+def tname(t):
+    return t.replace('std::complex<double>', 'cdouble')
 
 def lanes(isa, sz):
     return max(1, BITS[isa] // (8 * sz))
@@ -125,6 +129,15 @@ def sym_groups(tier, seed):
             for n, (par, sq) in enumerate(pick_quick(fix_family(V, rng, tier), FIX_ALWAYS, FIX_ROTATE, tier, seed + gi)):
                 for ck in ((n + seed + 1) % 2,) if tier == "quick" else (0, 1):
                     calls.append(fix_call("run_fix", "Sym%d" % sz, ck, par, sq))
+            # fixed integers fix<k>, k < 0 counted from the end, next to fseq axes
+            Dc = 2 * V + 3; rr = random.Random(seed * 101 + gi)
+            for n, (par, k, rest) in enumerate([((4, Dc), -2 - rr.randint(0, 2), [(1, 1 + V, 1)]), ((3, 4, 2 * V + 1), -1 - rr.randint(0, 2), [(0, -1, 1), (0, 2 * V, 2)])]
+                                               + ([((5, Dc), rr.randint(0, 4), [(0, -1, 1)]), ((5, 3, V + 1), -5, [(1, 3, 1), (0, -1, 1)])] if tier == "thorough" else [])):
+                calls.append("run_fixi<Sym%d,%d,%s,%d,%s>();" % (sz, (n + seed) % 2, dims(par), k, ",".join("Fastor::fseq<%d,%d,%d>" % q for q in rest)))
+            # TensorMap parents: the generic n-D view class at ranks 1, 2, 3 (vectorisable / strided / gather last axis)
+            for n, (ks, par, res) in enumerate([((0,), (4 * V + 2,), (2 * V + 1,)), ((0, 0), (4, 2 * V + 1), (2, V)), ((0, 1, 0), (2, 3, 2 * V + 3), (2, 1, V + 1))]
+                                               + ([((2, 0), (3, 3 * V), (3, V)), ((0,), (3 * V,), (V,))] if tier == "thorough" else [])):
+                calls.append("run_mview<Sym%d,%s,%s,%s>(%d,%d,%du);" % (sz, kinds(ks), dims(par), dims(res), smax, cap, seed * 13 + n))
             calls = list(dict.fromkeys(calls)); gi += 1
             groups.append({"key": "%s/sz%d" % (isa, sz), "header": "views_sym.h", "isa": isa, "opt": "-O0", "calls": calls})
     # scalar indexing (all ranks: 1..4 written out, >= 5 the generic loop) with and without the bounds assertion; iseq
@@ -153,7 +166,7 @@ def real_groups(tier, seed):
     smax, cap = (3, 40) if tier == "quick" else (4, 400)
     groups = []
     for isa in isas:
-        for t in ["float", "double", "int32_t", "int64_t"]:
+        for t in RTYPES:
             V = lanes(isa, TSIZE[t])
             dfam = dyn_family(V, rng, tier); ffam = fix_family(V, rng, tier)
             if tier == "quick":
@@ -166,9 +179,9 @@ def real_groups(tier, seed):
                 calls.append("run_rview<%s,%d,%s,%s,%s>(%d,%d,%du);" % (t, ck, kinds(ks), dims(par), dims(res), smax, cap, seed * 17 + n))
             for n, (par, sq) in enumerate(ffam):
                 calls.append(fix_call("run_rfix", t, (n + seed + 1) % 2, par, sq))
-            groups.append({"key": "%s/%s" % (isa, t), "header": "views_real.h", "isa": isa, "opt": "-O2", "calls": calls})
-            if tier == "thorough":
-                groups.append({"key": "%s/%s/ndebug" % (isa, t), "header": "views_real.h", "isa": isa, "opt": "-O2", "defs": ["-DNDEBUG"], "calls": calls,
+            groups.append({"key": "%s/%s" % (isa, tname(t)), "header": "views_real.h", "isa": isa, "opt": "-O2", "calls": calls})
+            if tier == "thorough" and isa in ("sse2", "avx2", "avx512"):
+                groups.append({"key": "%s/%s/ndebug" % (isa, tname(t)), "header": "views_real.h", "isa": isa, "opt": "-O2", "defs": ["-DNDEBUG"], "calls": calls,
                                "std": "c++17"})
     return groups
 
@@ -218,12 +231,17 @@ def sym_call_of(inp):
         g["calls"] = ["run_iseq<Sym%s,%s,%s>();" % (d["sz"], dims(par), ",".join("Fastor::iseq<%d,%d,%d>" % q[:3] for q in qs))]
         return g
     ck = 1 if d["ck"] == "c" else 0
-    if d["cls"].startswith("fix"):
+    if d["cls"].startswith("fix") and "I0" in d:
+        g["calls"] = ["run_fixi<Sym%s,%d,%s,%s,%s>();" % (d["sz"], ck, dims(par), d["I0"], ",".join("Fastor::fseq<%d,%d,%d>" % q[:3] for q in qs[1:]))]
+    elif d["cls"].startswith("fix"):
         g["calls"] = [fix_call("run_fix", "Sym" + d["sz"], ck, par, [q[:3] for q in qs])]
     else:
         ks = [int(x) for x in d["K"].split("x")]
         res = [vsize(q, D, len(par) == 1) for q, D in zip(qs, par)]
-        g["calls"] = ['run_view_one<Sym%s,%d,%s,%s,%s>("%s");' % (d["sz"], ck, kinds(ks), dims(par), dims(res), d["S"])]
+        if d.get("par") == "map":
+            g["calls"] = ['run_mview_one<Sym%s,%s,%s,%s>("%s");' % (d["sz"], kinds(ks), dims(par), dims(res), d["S"])]
+        else:
+            g["calls"] = ['run_view_one<Sym%s,%d,%s,%s,%s>("%s");' % (d["sz"], ck, kinds(ks), dims(par), dims(res), d["S"])]
     return g
 
 def replay(path):
